@@ -24,18 +24,21 @@ func newChecker(tc *testCase) *checker {
 	return &checker{tc: tc, m: newModel(&tc.Config)}
 }
 
-type expectedMark struct{ name, value, owner string }
+type expectedMark struct {
+	name, value, owner string
+	optional           bool // may or may not be set (undetermined value, see eventExpect.AppliedMax)
+}
 
 func (ck *checker) marks(ex *eventExpect) []expectedMark {
 	var out []expectedMark
 	for i := range ck.tc.Config.Masks {
 		mc := &ck.tc.Config.Masks[i]
-		if mc.AppliedField != "" && ex.AppliedCount[i] > 0 {
-			out = append(out, expectedMark{mc.AppliedField, mc.AppliedValue, "mask"})
+		if mc.AppliedField != "" && ex.AppliedMax[i] > 0 {
+			out = append(out, expectedMark{mc.AppliedField, mc.AppliedValue, "mask", ex.AppliedCount[i] == 0})
 		}
 	}
-	if ck.tc.Config.MaskAppliedField != "" && ex.Any {
-		out = append(out, expectedMark{ck.tc.Config.MaskAppliedField, ck.tc.Config.MaskAppliedValue, "plugin"})
+	if ck.tc.Config.MaskAppliedField != "" && ex.ApplicationsMax > 0 {
+		out = append(out, expectedMark{ck.tc.Config.MaskAppliedField, ck.tc.Config.MaskAppliedValue, "plugin", !ex.Any})
 	}
 	return out
 }
@@ -121,12 +124,12 @@ func (ck *checker) compare(ex *eventExpect, got *jnode, metrics map[string]float
 		}
 	}
 	for _, w := range want {
-		if !seen[w.name] {
+		if !seen[w.name] && !w.optional {
 			return &cmpResult{Stage: "marks", Msg: fmt.Sprintf("field %q=%q missing although a mask matched", w.name, w.value), Sub: "missing-" + w.owner + "-mark"}
 		}
 	}
 	// metrics
-	if r := ck.compareMetric(ex, cfg.pluginMetricName(), cfg.AppliedMetricLabels, "plugin", ex.Any, ex.Applications, metrics); r != nil {
+	if r := ck.compareMetric(ex, cfg.pluginMetricName(), cfg.AppliedMetricLabels, "plugin", ex.Any, ex.ApplicationsMax, metrics); r != nil {
 		return r
 	}
 	for i := range cfg.Masks {
@@ -134,7 +137,7 @@ func (ck *checker) compare(ex *eventExpect, got *jnode, metrics map[string]float
 		if mc.MetricName == "" {
 			continue
 		}
-		if r := ck.compareMetric(ex, mc.MetricName, mc.MetricLabels, "mask", ex.AppliedCount[i] > 0, ex.AppliedCount[i], metrics); r != nil {
+		if r := ck.compareMetric(ex, mc.MetricName, mc.MetricLabels, "mask", ex.AppliedCount[i] > 0, ex.AppliedMax[i], metrics); r != nil {
 			return r
 		}
 	}
@@ -156,6 +159,8 @@ func (ck *checker) compareMetric(ex *eventExpect, name string, labels []string, 
 	}
 	sort.Strings(keys)
 	switch {
+	case !applied && maxDelta > 0 && sum >= 0 && sum <= float64(maxDelta):
+		// undetermined: may or may not have matched
 	case !applied && sum != 0:
 		return &cmpResult{Stage: "metrics", Msg: fmt.Sprintf("%s counter %s moved by %v although nothing matched", owner, name, sum), Sub: owner + "-counter-unexpected"}
 	case applied && sum == 0:
@@ -163,7 +168,7 @@ func (ck *checker) compareMetric(ex *eventExpect, name string, labels []string, 
 	case applied && (sum < 1 || sum > float64(maxDelta)):
 		return &cmpResult{Stage: "metrics", Msg: fmt.Sprintf("%s counter %s moved by %v, want 1..%d", owner, name, sum, maxDelta), Sub: owner + "-counter-out-of-range"}
 	}
-	if applied && len(labels) == 1 {
+	if sum > 0 && len(labels) == 1 {
 		lab := labels[0]
 		wantVal, known := "not_set", true
 		for i, k := range ex.Tree.Keys {
@@ -365,7 +370,49 @@ func (ck *checker) classify(ex *eventExpect, r *cmpResult, got *jnode) mismatch 
 
 // crashShape picks the (leaf, mask) evaluation whose selection shape explains
 // a crash with the given (normalised) message. Diagnosis only.
-func (ck *checker) crashShape(tree *jnode, normMsg string) (shape string, st *stepEval, le *leafEval) {
+func (ck *checker) crashShape(tree *jnode, normMsg string) (shape string, st *stepEval, le *leafEval, via string) {
+	const viaNote = "value reached through another known defect (field list not inherited / emptied value re-read)"
+	// the documented behaviour never brings a hostile selection to a value of
+	// this event? then one of the other known defects may have (a field list
+	// that is not inherited lets a mask see a field it must not see; a value
+	// emptied by a cut mask is re-read by the next mask)
+	d := diagHyp{FlipShadowed: map[string]bool{"global-ignore": true, "global-process": true, "mask-ignore": true, "mask-process": true}, ReloadOnEmpty: true}
+	defer func() { ck.m.diag = diagHyp{} }()
+	type cand struct {
+		shape string
+		st    *stepEval
+		le    *leafEval
+		exact bool
+		via   string
+	}
+	var cands []cand
+	for pass, hyp := range []diagHyp{{}, d} {
+		ck.m.diag = hyp
+		sh, s, l, exact := ck.crashShapeUnder(tree, normMsg)
+		v := ""
+		if pass == 1 {
+			v = viaNote
+		}
+		if s != nil {
+			cands = append(cands, cand{sh, s, l, exact, v})
+		}
+	}
+	for _, c := range cands {
+		if c.exact {
+			return c.shape, c.st, c.le, c.via
+		}
+	}
+	if len(cands) > 0 {
+		c := cands[0]
+		return c.shape, c.st, c.le, c.via
+	}
+	return "none", nil, nil, ""
+}
+
+// crashShapeUnder: exact = the shape class agrees with the panic message
+// ("[-N:]" comes from an unmatched last group, "[N:N]" from ranges that are
+// not ascending).
+func (ck *checker) crashShapeUnder(tree *jnode, normMsg string) (shape string, st *stepEval, le *leafEval, exact bool) {
 	ex := ck.m.expect(tree, variants[0])
 	wantLast := strings.Contains(normMsg, "[-N:]") || strings.Contains(normMsg, "[:-N]")
 	var firstAny *stepEval
@@ -381,12 +428,12 @@ func (ck *checker) crashShape(tree *jnode, normMsg string) (shape string, st *st
 			}
 			isLast := s.Shape == "last-listed-group-unmatched-in-last-match"
 			if isLast == wantLast {
-				return s.Shape, s, l
+				return s.Shape, s, l, true
 			}
 		}
 	}
 	if firstAny != nil {
-		return firstAny.Shape, firstAny, firstAnyLeaf
+		return firstAny.Shape, firstAny, firstAnyLeaf, false
 	}
-	return "none", nil, nil
+	return "none", nil, nil, false
 }
